@@ -10,7 +10,57 @@ use rip_kernel::{Event, StreamKind};
 
 pub struct EventLog {
     path: PathBuf,
-    writer: Mutex<BufWriter<File>>,
+    writer: Mutex<LogWriter>,
+}
+
+/// The log's buffered writer.  A `BufWriter` keeps the bytes of a write or flush that failed (disk
+/// full, I/O error) and hands them to the next call that succeeds - or to its own drop: a frame whose
+/// append returned an error (so it was neither published nor given its seq) would show up in the log
+/// later, behind or in front of the frame that reused its seq.  This writer forgets what a failed
+/// call left in the buffer.
+struct LogWriter {
+    inner: Option<BufWriter<File>>,
+}
+
+impl LogWriter {
+    fn new(file: File) -> Self {
+        Self {
+            inner: Some(BufWriter::new(file)),
+        }
+    }
+
+    fn guarded<T>(
+        &mut self,
+        op: impl FnOnce(&mut BufWriter<File>) -> io::Result<T>,
+    ) -> io::Result<T> {
+        let writer = self
+            .inner
+            .as_mut()
+            .ok_or_else(|| io::Error::other("event log writer is gone"))?;
+        let result = op(writer);
+        if result.is_err() {
+            if let Some(stale) = self.inner.take() {
+                // `into_parts` hands the file back without flushing the unwritten bytes.
+                let (file, _unwritten) = stale.into_parts();
+                self.inner = Some(BufWriter::new(file));
+            }
+        }
+        result
+    }
+}
+
+impl Write for LogWriter {
+    fn write(&mut self, buf: &[u8]) -> io::Result<usize> {
+        self.guarded(|writer| writer.write(buf))
+    }
+
+    fn write_all(&mut self, buf: &[u8]) -> io::Result<()> {
+        self.guarded(|writer| writer.write_all(buf))
+    }
+
+    fn flush(&mut self) -> io::Result<()> {
+        self.guarded(|writer| writer.flush())
+    }
 }
 
 impl EventLog {
@@ -22,7 +72,7 @@ impl EventLog {
         let file = OpenOptions::new().create(true).append(true).open(&path)?;
         Ok(Self {
             path,
-            writer: Mutex::new(BufWriter::new(file)),
+            writer: Mutex::new(LogWriter::new(file)),
         })
     }
 
@@ -246,6 +296,33 @@ fn compare_events(left: &[Event], right: &[Event]) -> io::Result<()> {
 #[cfg(test)]
 mod tests {
     use super::*;
+
+    /// A write the disk refuses must not stay in the writer: the next append (or the drop) would put
+    /// the refused frame into the log.
+    #[cfg(target_os = "linux")]
+    #[test]
+    fn failed_write_leaves_nothing_in_the_buffer() {
+        let file = OpenOptions::new()
+            .append(true)
+            .open("/dev/full")
+            .expect("/dev/full");
+        let mut writer = LogWriter::new(file);
+        writer.write_all(b"refused frame\n").expect("buffered");
+        assert!(writer.flush().is_err());
+        assert!(writer
+            .inner
+            .as_ref()
+            .expect("writer")
+            .buffer()
+            .is_empty());
+        // the writer stays usable: the next line is buffered on its own
+        writer.write_all(b"next frame\n").expect("buffered");
+        assert_eq!(
+            writer.inner.as_ref().expect("writer").buffer(),
+            b"next frame\n"
+        );
+    }
+
     use rip_kernel::{EventKind, Runtime};
     use tempfile::tempdir;
 
